@@ -66,6 +66,8 @@ func Run(a Adapter, h *History) bool {
 				if st.Fn == "SendPar" {
 					st.Rets = a.Par(st.Msgs)
 					st.Ret = "par"
+				} else if st.Fn == "BurstStop" { // routed through Par with a marker queue
+					st.Ret = a.Par([][]int{st.Msgs[0], {-1}})[0]
 				} else {
 					st.Ret = a.Call(st.Fn, st.M, st.Opts)
 				}
